@@ -3,6 +3,8 @@ NEXT Next
 CONSTANTS
   FlatLen = 4
   Mode = "wide"
+  EnumCap32 = TRUE
+  UnionFieldCallback = TRUE
   Small = FALSE
 INVARIANT ImplSatisfiesPropertyAll
 CHECK_DEADLOCK FALSE
